@@ -272,11 +272,6 @@ def c14(cx):
         trace, crash = play(cx, b, tag, cmd="copybin")
         rejected = [] if crash else validate(cx, trace, "Trace_PgCopyBin")
         judge(cx, b, trace, rejected, crash, "Trace_PgCopyBin", play_cmd="copybin")
-    if flow and not cx.violations:
-        flow_step(cx, b2 if gen_prop else None)
-        rule += (" In addition the raw conversations of the repository's own test suite (pgx, lib/pq, raw sockets) and of "
-                 "the random sessions, recorded by the connection recorder hook, are judged by the handler-agnostic "
-                 "specification PgFlow (Trace_PgFlow); only rejections attributed to this property are reported here.")
     count_distinct(cx, *[f[1] for f in files])
     cx.cov["trusted_base"] = TB_CONN + ["harness: own binary encoders for the supported types, canonical rendering of decoded Go values"]
     return finish(cx, "model_checking",
@@ -318,7 +313,7 @@ def c02(cx):
     files = [b]
     # (b) every byte any driver makes the server emit goes through the grammar
     n = 3000 if thorough else 250
-    for fam in ["C05", "C06", "C08", "C09", "C13", "C17", "C12", "C01", "C19", "C10", "C07"]:
+    for fam in ["C02", "C05", "C06", "C08", "C09", "C13", "C17", "C12", "C01", "C19", "C10", "C07"]:
         g = gen_random(cx, fam, n, tag="rand-" + fam)
         files.append(g)
         if fam == "C17":
@@ -471,6 +466,25 @@ def c15(cx):
                   ASSUME_CONN + ["the race detector is an auxiliary monitor outside the TLA+ family (DESIGN 4 C15)"])
 
 
+def survive_wedged(cx, b, trace, line_no, fam):
+    """A connection that did not end after its input ended: find the behaviour, replay it alone."""
+    from check import read_idx, bundle
+    idx = read_idx(trace)
+    beh = next((k for (a, z, k) in idx if a <= line_no + 1 <= z), None)
+    if beh is None:
+        raise Machinery("wedged connection outside any execution")
+    one = os.path.join(cx.scratch, "one-wedged.ndjson")
+    open(one, "w").write(read_lines(b)[beh] + "\n")
+    for attempt in range(3):
+        t2, c2 = play(cx, one, "rewedge", extra=["-proj", fam, "-seedindex", str(beh)])
+        if c2 or any('"k":"wedged"' in l for l in read_lines(t2)):
+            what = "connection left hanging after its input ended (session of family %s)" % fam
+            d = bundle(cx, what, read_lines(b)[beh], read_lines(t2) if not c2 else [], "", extra={"seedindex": beh})
+            cx.violations.append((what, d))
+            return
+    raise Machinery("a hanging connection did not reproduce")
+
+
 def c04(cx):
     build_harness(cx)
     thorough = cx.tier == "thorough"
@@ -491,6 +505,20 @@ def c04(cx):
     stage("faults", gen_random(cx, "C04F", 8000 if thorough else 600, tag="faults"), "play", "Trace_PgConn", ["-proj", "C04"])
     # (c) random / mutated bytes, count bombs, gigabyte headers, hostile COPY streams, helper fuzzing; then a probe
     stage("junk", gen_random(cx, "C04J", 20000 if thorough else 1500, tag="junk"), "junk", "Trace_Robust")
+    # (d) survival under the sessions of the other families (valid traffic, odd corners included: result / parameter
+    #     format lists that are neither empty, single nor complete): no verdict on what is answered - that belongs
+    #     to those properties - only that the process stays alive and no connection is left hanging
+    for fam in ["C06", "C07", "C08", "C13", "C09", "C05", "C19"]:
+        b = gen_random(cx, fam, 1500 if thorough else 150, tag="surv-" + fam, extra=["-odd"])
+        files.append(b)
+        trace, crash = play(cx, b, "surv-" + fam, extra=["-proj", fam])
+        if crash:
+            judge(cx, b, trace, [], crash, "Trace_PgConn", play_extra=["-proj", fam])
+        else:
+            hung = [i for i, l in enumerate(read_lines(trace)) if '"k":"wedged"' in l]
+            cx.cov["survival_executions"] = cx.cov.get("survival_executions", 0) + len(read_lines(trace + ".idx"))
+            if hung:
+                survive_wedged(cx, b, trace, hung[0], fam)
     count_distinct(cx, *files)
     cx.cov["trusted_base"] = TB_CONN + ["runtime.MemStats.TotalAlloc deltas", "process death / bounded waits observed by the orchestrator"]
     return finish(cx, "model_checking",
@@ -507,7 +535,8 @@ def c04(cx):
                   "count bombs (65535 announced codes / parameters / types, 2^31-byte parameter, gigabyte headers), hostile "
                   "binary COPY streams read through the library's row reader, direct fuzzing of ParseParameters and "
                   "Parameter.Scan: validated against Trace_Robust (process alive, connection closed after its input ends, "
-                  "allocation bound, helpers return, probe served exactly as usual). A crash of the server kills the harness "
+                  "allocation bound, helpers return, probe served exactly as usual). (d) random sessions of seven other families "
+                  "(odd format-code lists included) judged for survival only. A crash of the server kills the harness "
                   "process and is reported with the input that caused it.",
                   ASSUME_CONN + ["waits are bounded (10 s) only to detect a wedged connection"])
 
